@@ -163,8 +163,16 @@ func (w *walker) Run() {
 	}
 	if w.Inline > 0 {
 		w.runInlining()
+		if w.Truncated {
+			walkerTruncations = append(walkerTruncations, funcName(w.fn))
+		}
 		return
 	}
+	defer func() {
+		if w.Truncated {
+			walkerTruncations = append(walkerTruncations, funcName(w.fn))
+		}
+	}()
 	st := &wstate{vals: map[ssa.Value]*absVal{}, mem: map[string]*absVal{}, allocd: map[string]bool{}, visits: map[*ssa.BasicBlock]int{}}
 	if w.Init != nil {
 		w.Init(w, st)
@@ -680,3 +688,7 @@ func errPropagated(p *Prog, ev ssa.Value) (bool, string) {
 	}
 	return bad == "", bad
 }
+
+// walkerTruncations collects the functions whose exploration hit the path or step limit during the current
+// check: their tables are incomplete, so the check reports itself undecided instead of passing.
+var walkerTruncations []string
